@@ -16,6 +16,7 @@ import shutil
 import sys
 
 LOG = []
+PUSHES = []      # (number of commits so far, handler, candidate time): only recorded for C20's tie classifier
 STATE = {"depth": 0, "last_returned": None, "last_pushed": {}, "dumps": 0, "dump_dir": None, "max_events": None,
          "events": 0}
 
@@ -81,6 +82,8 @@ def install():
 
             def push_event(self, time, event_handler):
                 STATE["last_pushed"][id(event_handler)] = [_hx(time.quotient), _hx(time.remainder)]
+                if STATE.get("record_pushes"):
+                    PUSHES.append([STATE["events"], id(event_handler), [_hx(time.quotient), _hx(time.remainder)]])
                 return op(self, time, event_handler)
             cls.get_succeeding_event, cls.push_event = get_succeeding_event, push_event
         wrap()
@@ -288,6 +291,7 @@ def main_c20(mode, spec):
     verif_input_handlers.register()
     install()
     STATE["max_events"] = spec.get("max_events")
+    STATE["record_pushes"] = True
     if mode == "mp":
         install_mp(spec)
     else:
@@ -317,7 +321,7 @@ def main_c20(mode, spec):
             pass
     arr = STATE.get("arrival", {})
     seq = arr.get("seq", [])
-    res = {"log": LOG, "error": err, "children_before_post_run": alive_before,
+    res = {"log": LOG, "pushes": PUSHES, "error": err, "children_before_post_run": alive_before,
            "children_alive_after_post_run": alive_after,
            "arrival_signature": hashlib.sha1(repr(seq).encode()).hexdigest() if seq else None,
            "wait_calls": arr.get("calls", 0), "wait_calls_with_several_ready": arr.get("multi", 0),
